@@ -175,6 +175,11 @@ pub fn text_items() -> Vec<Item> {
     i("\\u{D800}", Bad),
     i("\\u{110000}", Bad),
     i("\\u{DFFF}", Bad),
+    // more hex digits than a code point has: the number is not reduced modulo 2^32 (or 2^64)
+    i("\\u{100000041}", Bad),
+    i("\\u{10000000000000041}", Bad),
+    i("\\u{FFFFFFFF}", Bad),
+    i("\\u{000000000041}", Lit("A")),
     i("';", Lit("';")),
   ]
 }
@@ -624,7 +629,7 @@ pub fn run(tier: Tier) -> i32 {
     plain type position; boundary families (0, 2^32, 2^63-1, 2^63, 2^64-1, 2^64, 2^127 in decimal / hex both cases / binary / zero-padded hex, both signs; float overflow, \
     underflow, hex-float edge cases, malformed forms) and every valid short spelling in each of 20 positions (type, choice arm, array entry, map value, 'v:' key, 'v =>' key, cut \
     key, both range bounds, control argument, generic argument, tag content, occurrence lower / upper bound, tag number, simple-value and major-type number). Text: every sequence \
-    of <= 3 (4) items over 24 escape building blocks (plain, every single-character escape, \\uXXXX, surrogate pairs incl. planes 2 and 16, lone and reversed surrogates, \\u{...} \
+    of <= 3 (4) items over 28 escape building blocks (plain, every single-character escape, \\uXXXX, surrogate pairs incl. planes 2 and 16, lone and reversed surrogates, \\u{...} \
     incl. leading zeros, surrogate and > 10FFFF scalars) in 6 positions. Byte strings: every sequence of <= 3 (4) items over hex / base64 / base64url building blocks incl. \
     whitespace, comments, padding variants and invalid characters, and plain '...' strings, in 3 positions. Reference decoders (module c07) give value / unrepresentable / invalid / \
     don't-care; oracle: accepted => the AST node at the hole (read with the shape walker) equals the reference value; invalid or unrepresentable => not accepted as a literal at the \
